@@ -463,7 +463,8 @@ def check_returns(ctx, L):
         for r in [x for x in f.walk() if isinstance(x, ast.Return)]:
             for g, holds in guards:
                 n += 1
-                L.check(P.knows(f, r, g, holds, params) or (not holds and P.knows_fails(f, r, g, params)), 'C10f.check-dominates-return', '%s|%s|%s' % (f.fq, norm_key(f, r), g), f.site(r),
+                L.check(P.knows(f, r, g, holds, params) or (not holds and (P.knows_fails(f, r, g, params) or P.fails_on_every_path(f, r, g, params))),
+                        'C10f.check-dominates-return', '%s|%s|%s' % (f.fq, norm_key(f, r), g), f.site(r),
                         'a value is returned (accepted) by %s on a path that has not passed the rejecting test `%s` (known there: %s)'
                         % (f.qualname, g, sorted(P.facts(f, r))), ws(unparse(r)))
     e = gen.func('enum_generator.add_attributes.check')
